@@ -30,16 +30,18 @@ type prState struct {
 	LPending [][2]any `json:"lpending"`
 }
 type prObs struct {
-	Events         [][]any   `json:"events"`
-	States         []prState `json:"states"`
-	IdpSideOK      bool      `json:"idp_side_ok"`
-	ValuesRoundtrip bool     `json:"values_roundtrip"`
-	Note           string    `json:"note"`
+	Events          [][]any   `json:"events"`
+	States          []prState `json:"states"`
+	IdpSideOK       bool      `json:"idp_side_ok"`
+	ValuesRoundtrip bool      `json:"values_roundtrip"`
+	Note            string    `json:"note"`
 }
 
-func (Protocol) Name() string                    { return "Protocol" }
-func (Protocol) MC(tier string) (string, string) { return "MC_Protocol.tla", "MC_Protocol_" + tier + ".cfg" }
-func (Protocol) Trace() (string, string)         { return "Trace_Protocol.tla", "Trace_Protocol.cfg" }
+func (Protocol) Name() string { return "Protocol" }
+func (Protocol) MC(tier string) (string, string) {
+	return "MC_Protocol.tla", "MC_Protocol_" + tier + ".cfg"
+}
+func (Protocol) Trace() (string, string) { return "Trace_Protocol.tla", "Trace_Protocol.cfg" }
 func (Protocol) Cap(tier string) int {
 	if tier == "thorough" {
 		return 30000
@@ -72,9 +74,9 @@ func (Protocol) Run(c *orch.Case) *orch.Outcome {
 	sp.SPKeyStore = dsig.TLSCertKeyStore{Certificate: [][]byte{ks["encField"].DER}, PrivateKey: ks["encField"].Key}
 	o := &prObs{IdpSideOK: true, ValuesRoundtrip: true, Events: [][]any{}, States: []prState{}}
 
-	realID := map[int]string{}    // model request number -> real ID (AuthnRequest or LogoutRequest)
-	modelOf := map[string]int{}   // real ID -> model number
-	acsOf := map[int]string{}     // what the IdP read in the request
+	realID := map[int]string{}  // model request number -> real ID (AuthnRequest or LogoutRequest)
+	modelOf := map[string]int{} // real ID -> model number
+	acsOf := map[int]string{}   // what the IdP read in the request
 	pending := map[int]bool{}
 	lpending := map[int]string{}
 	var sessions []prSession
